@@ -323,6 +323,39 @@ def m_int_convert(ip, st, fr, t, args):
     return Opaque("convert")
 
 
+def m_into_generic(ip, st, fr, t, args):
+    """`x.into()` on a type PARAMETER inside a generic function of the crate (`fn f<T: Into<i32>>(v: T)`): the body is analysed with the
+    caller's value; the source type (width, signedness) is that of the caller's argument"""
+    a = args[0]
+    dst = ip.int_info(t["dest"]["ty"])
+    op = t["args"][0]
+    if not (isinstance(a, Int) and dst and op["k"] in ("copy", "move") and not op["p"]["p"]):
+        return None
+    l = op["p"]["l"]
+    # follow a plain move chain back to a parameter of this body
+    hops = 0
+    while hops < 4 and not (1 <= l <= fr.body.get("argc", -1)):
+        src = None
+        for bl in fr.body["blocks"]:
+            for s_ in bl["st"]:
+                if s_["k"] == "assign" and not s_["p"]["p"] and s_["p"]["l"] == l and s_["r"]["k"] == "use" and s_["r"]["o"]["k"] in ("copy", "move") and not s_["r"]["o"]["p"]["p"]:
+                    src = s_["r"]["o"]["p"]["l"]
+        if src is None:
+            break
+        l = src
+        hops += 1
+    if len(st.frames) < 2:
+        return None
+    caller = st.frames[-2]
+    ct = caller.body["blocks"][caller.bb]["term"]
+    if ct["k"] != "call" or not (1 <= l <= len(ct["args"])):
+        return None
+    sii = ip.int_info(ip.operand_ty(ct["args"][l - 1]))
+    if not sii or sii[0] != len(a.bits):
+        return None
+    return Int(bv.cast(a.bits, dst[0], sii[1]))
+
+
 def is_int_convert(path, full):
     if path.startswith("std::convert::num::<impl std::convert::From<") and path.endswith(">::from"):
         return True
@@ -794,6 +827,7 @@ def standard_models():
         (lambda p, f: (p or "").startswith("log::") or ((p or "") in ("std::cmp::PartialOrd::le", "std::cmp::PartialOrd::ge", "std::cmp::PartialOrd::lt", "std::cmp::PartialOrd::gt") and "log::Level" in (f or "")), m_host_log),
         (lambda p, f: bool(_INT_TY.match(p or "")), int_method),
         (is_int_convert, m_int_convert),
+        (lambda p, f: (f or "").startswith("<T as std::convert::Into<") and (f or "").endswith(">::into"), m_into_generic),
         (is_range_index, m_range_index),
         (is_combinator, m_combinator),
         (lambda p, f: bool(_TRYFROM.search(p or "")), m_try_from_int),
